@@ -80,3 +80,35 @@ Theorem C17_blind_layout_ristretto :
       length accepted = 64 /\ k = (bytes_to_Z_le accepted mod ell)%Z /\ k <> 0%Z.
 Proof. exact r_blind_layout. Qed.
 Print Assumptions C17_blind_layout_ristretto.
+
+(* ---------------------------------------------------------------- over histories: attempts draw from disjoint ranges
+   In every world reachable in the adversarial model (any number of login attempts against any identifiers - with or
+   without a record -, interleaved in any order with client steps and finish steps, all parties sharing one tape): two
+   server sessions j < k drew their random fields (fake masking key if there is no record, masking nonce, ephemeral-key
+   seed, server nonce) from disjoint ranges of that one tape, session k's after session j's.  No random field of an
+   attempt is a function of another attempt's or is reused.  [sampler_prefix]: the OPRF scalar sampler consumes a prefix
+   of the tape - proved for the 20 suites and the toy suite (second theorem). *)
+From Coq Require Import Arith.
+From OKE Require Import Generated World FreshRanges SamplerConcrete CodecsConcrete Toy.
+Theorem C17_attempts_draw_from_disjoint_ranges_in_any_history :
+  forall E Sc Pk Sk (CS : Suite E Sc Pk Sk), sampler_prefix CS ->
+  forall setup tape ops j k sj sk,
+    let w := run CS (@init E Sc Pk Sk setup tape) ops in
+    j < k -> nth_error (w_srv w) j = Some sj -> nth_error (w_srv w) k = Some sk ->
+    exists tj fj nj ej mj mid fk nk ek mk restk,
+      tj = fj ++ nj ++ ej ++ mj ++ mid ++ fk ++ nk ++ ek ++ mk ++ restk /\
+      nj = cr_masking_nonce (sv_resp sj) /\ mj = k2_nonce (cr_ke2 (sv_resp sj)) /\
+      nk = cr_masking_nonce (sv_resp sk) /\ mk = k2_nonce (cr_ke2 (sv_resp sk)) /\
+      length fj = (match sv_file sj with Some _ => 0 | None => h_len (hash CS) end) /\
+      length fk = (match sv_file sk with Some _ => 0 | None => h_len (hash CS) end) /\
+      length nj = KE_NONCE_LEN /\ length nk = KE_NONCE_LEN /\ length mj = KE_NONCE_LEN /\ length mk = KE_NONCE_LEN /\
+      length ej = k_Nsk (ke CS) /\ length ek = k_Nsk (ke CS) /\
+      (exists esk, k_derive (ke CS) (hash CS) (o_id (oprf CS)) ej = Some esk /\ k2_server_e_pk (cr_ke2 (sv_resp sj)) = k_pub (ke CS) esk) /\
+      (exists esk, k_derive (ke CS) (hash CS) (o_id (oprf CS)) ek = Some esk /\ k2_server_e_pk (cr_ke2 (sv_resp sk)) = k_pub (ke CS) esk) /\
+      suffix tj tape.
+Proof. exact @attempts_draw_from_disjoint_ranges. Qed.
+Print Assumptions C17_attempts_draw_from_disjoint_ranges_in_any_history.
+
+Theorem C17_samplers_consume_a_prefix_of_the_tape : all_suites (fun _ _ _ _ CS => sampler_prefix CS) /\ sampler_prefix TOY.
+Proof. exact (conj sampler_prefix_20 sampler_prefix_toy). Qed.
+Print Assumptions C17_samplers_consume_a_prefix_of_the_tape.
